@@ -62,6 +62,11 @@ pub struct Ctx {
     pub nontrivial: u64,
 }
 
+/// RFV_LIGHT=1: reduced sweeps for slow (unoptimised / sanitizer) builds of the harness
+pub fn light() -> bool {
+    std::env::var("RFV_LIGHT").map(|v| v == "1").unwrap_or(false)
+}
+
 pub fn compiled_features() -> Vec<&'static str> {
     let mut v = vec![];
     if cfg!(feature = "avx") {
